@@ -148,6 +148,8 @@ struct Trans {
 /// Backspace = remove_last, state cleared after Commit): committed code -> witness key list (key codes)
 struct Reach {
     committed: BTreeMap<u16, Vec<u8>>,
+    /// key lists (from the fresh state) after which the layout itself commits the empty syllable
+    empty_commit: Vec<Vec<u8>>,
 }
 
 /// returns true if the (well-formed) syllable handed over is the empty one: sound at the buffer because the
@@ -297,7 +299,8 @@ fn explore_finite(out: &mut Out, name: &'static str, mk: Mk, full: bool) -> Reac
     }
     out.stat(&format!("{}.editor_reachable_states", name), seen.len());
     out.stat(&format!("{}.committable_syllables", name), committed.len());
-    Reach { committed }
+    let empty_commit = committed.iter().filter(|(c, _)| **c == 0x8000).map(|(_, p)| p.clone()).collect();
+    Reach { committed, empty_commit }
 }
 
 fn alt_of(e: &dyn SyllableEditor, s: u16) -> Vec<u16> {
@@ -452,6 +455,7 @@ fn explore_pinyin(out: &mut Out, v: &'static str, rng: &mut Rng, thorough: bool)
     let ends = [KeyCode::Space, KeyCode::N1, KeyCode::N2, KeyCode::N3, KeyCode::N4, KeyCode::N5];
     let mut committed: BTreeMap<u16, Vec<u8>> = BTreeMap::new();
     let mut n_empty_commit = 0u64;
+    let mut empty_commit: Vec<Vec<u8>> = vec![];
     let (mut n_keys, mut n_commit) = (0u64, 0u64);
     for s in &strings {
         let mut p = pin_mk(v);
@@ -476,6 +480,9 @@ fn explore_pinyin(out: &mut Out, v: &'static str, rng: &mut Rng, thorough: bool)
                 if !s.chars().next().unwrap().is_ascii_uppercase() {
                     let mut w: Vec<u8> = path.iter().map(|(c, sh)| *c | if *sh { 0x80 } else { 0 }).collect();
                     w.push(end as u8);
+                    if q.read().is_empty() {
+                        empty_commit.push(w.clone());
+                    }
                     committed.entry(q.read().to_u16()).or_insert(w);
                 }
             }
@@ -528,7 +535,7 @@ fn explore_pinyin(out: &mut Out, v: &'static str, rng: &mut Rng, thorough: bool)
     out.stat(&format!("{}.commits", v), n_commit);
     out.stat(&format!("{}.empty_syllable_commits_F38", v), n_empty_commit);
     out.stat(&format!("{}.committable_syllables", v), committed.len());
-    Reach { committed }
+    Reach { committed, empty_commit }
 }
 
 // ------------------------------------------------------------------------------ through the editor
@@ -569,23 +576,59 @@ fn check_buffer(out: &mut Out, name: &str, ed: &Editor, keys: &str) -> bool {
     true
 }
 
+/// one key through the editor; a panic inside the editor is caught (the editor is then rebuilt by the caller)
+fn ed_key(ed: &mut Editor, ev: KeyEvent) -> bool {
+    catch_unwind(AssertUnwindSafe(|| {
+        ed.process_keyevent(ev);
+    }))
+    .is_ok()
+}
+
 fn key_event_of(w: u8) -> KeyEvent {
     let code = CODES[(w & 0x7f) as usize];
     Qwerty.map_with_mod(code, mods((w >> 7) & 1))
 }
 
 fn through_editor(out: &mut Out, name: &str, mk: &dyn Fn() -> Box<dyn SyllableEditor>, readings: &Readings,
-                  witness: &HashMap<u16, (u16, Vec<u8>)>, rng: &mut Rng, thorough: bool) {
+                  witness: &HashMap<u16, (u16, Vec<u8>)>, reach: &Reach, rng: &mut Rng, thorough: bool) {
     // (a) every witness key list really puts its syllable into the buffer, and the candidate list of that
     //     position contains a character with the wanted reading
     let mut n_ok = 0u64;
     let mut ed = make_editor(readings, mk(), false);
     let mut ed_fuzzy = make_editor(readings, mk(), true);
     let (opts, opts_fuzzy) = (ed.editor_options(), ed_fuzzy.editor_options());
+    let mut n_panics = 0u64;
+    // (0) key lists after which the layout itself hands over the empty syllable (F38 and the like): the editor
+    //     must drop it, under both lookup strategies
+    for keys in &reach.empty_commit {
+        for fuzzy in [false, true] {
+            let mut e = make_editor(readings, mk(), fuzzy);
+            let mut shown = vec![];
+            for k in keys {
+                shown.push(k.to_string());
+                if !ed_key(&mut e, key_event_of(*k)) {
+                    n_panics += 1;
+                    out.oracle_fail("C14", "new", &format!("layout {} keys [{}]: the editor panics after the layout committed the empty syllable", name, shown.join(",")));
+                    break;
+                }
+                if !check_buffer(out, name, &e, &shown.join(",")) {
+                    break;
+                }
+            }
+        }
+    }
+    out.stat(&format!("{}.editor_empty_commit_witnesses", name), reach.empty_commit.len());
     for (r, (carrier, keys)) in witness {
         ed.clear();
+        let mut ok = true;
         for k in keys {
-            ed.process_keyevent(key_event_of(*k));
+            ok = ok && ed_key(&mut ed, key_event_of(*k));
+        }
+        if !ok {
+            n_panics += 1;
+            out.oracle_fail("C14", "new", &format!("layout {} keys {:?}: the editor panics while the reading {} is typed", name, keys, r));
+            ed = make_editor(readings, mk(), false);
+            continue;
         }
         let keys_s = keys.iter().map(|k| k.to_string()).collect::<Vec<_>>().join(",");
         let buf = buffer_syllables(&ed);
@@ -597,8 +640,11 @@ fn through_editor(out: &mut Out, name: &str, mk: &dyn Fn() -> Box<dyn SyllableEd
             continue;
         }
         let ch = &readings.by_code[r].1;
-        let _ = ed.start_selecting();
-        let cands = ed.all_candidates().unwrap_or_default();
+        let cands = catch_unwind(AssertUnwindSafe(|| {
+            let _ = ed.start_selecting();
+            ed.all_candidates().unwrap_or_default()
+        }))
+        .unwrap_or_default();
         if !cands.iter().any(|c| c == ch) {
             out.oracle_fail("C14", "new", &format!(
                 "layout {} keys [{}]: candidate list of syllable {} lacks {} (reading {})", name, keys_s, carrier, hx(ch), r));
@@ -612,7 +658,9 @@ fn through_editor(out: &mut Out, name: &str, mk: &dyn Fn() -> Box<dyn SyllableEd
     let mut n_syl = 0u64;
     for i in 0..n_lists {
         let ed = if i % 2 == 1 { &mut ed_fuzzy } else { &mut ed };
-        ed.clear();
+        if catch_unwind(AssertUnwindSafe(|| ed.clear())).is_err() {
+            *ed = make_editor(readings, mk(), i % 2 == 1);
+        }
         ed.set_editor_options(if i % 2 == 1 { opts_fuzzy } else { opts });
         let n = 4 + rng.below(20);
         let mut keys = vec![];
@@ -626,14 +674,23 @@ fn through_editor(out: &mut Out, name: &str, mk: &dyn Fn() -> Box<dyn SyllableEd
             };
             let m = if rng.chance(1, 12) { 1 } else { 0 };
             keys.push(format!("{}{}", code as u8, if m == 1 { "s" } else { "" }));
-            ed.process_keyevent(Qwerty.map_with_mod(code, mods(m)));
-            if !check_buffer(out, name, ed, &keys.join(",")) {
+            let alive = ed_key(ed, Qwerty.map_with_mod(code, mods(m)));
+            // the buffer is inspected even after a panic: an unsound syllable is what makes conversion panic
+            let sound = catch_unwind(AssertUnwindSafe(|| check_buffer(out, name, ed, &keys.join(",")))).unwrap_or(false);
+            if !alive {
+                // a panic with a sound buffer is another property's business (C01); counted, editor rebuilt
+                n_panics += 1;
+                *ed = make_editor(readings, mk(), i % 2 == 1);
+                break;
+            }
+            if !sound {
                 break;
             }
         }
         n_syl += buffer_syllables(ed).iter().flatten().count() as u64;
     }
     out.stat(&format!("{}.editor_random_lists", name), n_lists);
+    out.stat(&format!("{}.editor_panics", name), n_panics);
     out.stat(&format!("{}.editor_random_syllables_in_buffer", name), n_syl);
 }
 
@@ -694,7 +751,7 @@ fn main() {
             }
         }
         let witness = completeness(&mut out, name, &*e, &reach, &readings);
-        through_editor(&mut out, name, &|| mk(), &readings, &witness, &mut rng, thorough);
+        through_editor(&mut out, name, &|| mk(), &readings, &witness, &reach, &mut rng, thorough);
     }
 
     // ---------------------------------------------------------------- pinyin
@@ -707,7 +764,7 @@ fn main() {
                 if a.is_empty() { "-".to_string() } else { a.iter().map(|x| x.to_string()).collect::<Vec<_>>().join(",") }));
         }
         let witness = completeness(&mut out, v, &*e, &reach, &readings);
-        through_editor(&mut out, v, &|| Box::new(pin_mk(v)), &readings, &witness, &mut rng, thorough);
+        through_editor(&mut out, v, &|| Box::new(pin_mk(v)), &readings, &witness, &reach, &mut rng, thorough);
     }
     out.sample("lay key hsu 32768 32 32 104 => absorb 5632 absorb 5632   (state, key event, key_press and fuzzy_key_press results)");
     out.flush();
